@@ -41,6 +41,9 @@ func main() {
 	fmt.Printf("== scriggo\n%s", r.Printed)
 	if r.RunPanic != nil {
 		fmt.Printf("== scriggo HOST PANIC: %v\n", r.RunPanic)
+		if asm {
+			fmt.Println(r.Stack)
+		}
 	}
 	if pe, ok := r.RunErr.(*scriggo.PanicError); ok {
 		fmt.Printf("== scriggo panic: %q\n", strings.TrimRight(pe.Error(), "\n"))
